@@ -822,8 +822,32 @@ def main() -> int:
     for name, hits in probes.items():
         if hits == 0 and name in ("switch_inside_germany_py", "switch_inside_bban_py", "runs_with_conflicting_switch"):
             print(f"warning: probe {name} never fired")
+    # reach: which executable lines of the package were used as a pre-emption (switch) point at least once
+    all_lines: dict = {}
+    for code in sched._package_codes(runner.PKG_DIR):
+        rel = code.co_filename[len(runner.PKG_DIR):]
+        for _, _, line in code.co_lines():
+            if line and line != code.co_firstlineno or (line and code.co_name == "<module>"):
+                all_lines.setdefault((rel, line), code.co_name)
+    switched = set()
+    for site in sites:
+        parts = site.rsplit(":", 2)
+        if len(parts) == 3 and parts[2].startswith("L"):
+            switched.add((parts[0], int(parts[2][1:])))
+    func_lines = {k: v for k, v in all_lines.items() if v != "<module>" and not v.startswith("<")}
+    never: dict = {}
+    for (rel, line), fn in sorted(func_lines.items()):
+        if (rel, line) not in switched:
+            never.setdefault(f"{rel}:{fn}", 0)
+            never[f"{rel}:{fn}"] += 1
+    reach = {
+        "executable_lines_in_functions": len(func_lines),
+        "lines_used_as_preemption_point": len([k for k in func_lines if k in switched]),
+        "functions_with_lines_never_used": dict(sorted(never.items(), key=lambda kv: -kv[1])[:25]),
+    }
     cov = {
         "evaluations": agg["runs"],
+        "reach_lines": reach,
         "distinct_nontrivial": len(nontriv),
         "rule": "one evaluation = one simulated concurrent run (2-3 threads x 1-3 API calls) under a seeded "
                 "schedule; distinct = distinct sha256 over the sequence of (from, to, reason, file:line) at which "
